@@ -14,6 +14,9 @@ pub(crate) fn vk_store(stats: Arc<ConcurrentStatsCounter>) -> Arc<Store<u64, u64
 }
 pub(crate) fn vk_place(s: &Store<u64, u64>, slot: usize, key: u64, v: StoredValue<u64>) { s.store.vk_place(slot, key, v); }
 pub(crate) fn vk_peek<'a>(s: &'a Store<u64, u64>, key: &u64) -> Option<&'a StoredValue<u64>> { s.store.vk_peek(key) }
+pub(crate) type ValueStorage = [dashmap::VCell<StoredValue<u64>>; dashmap::CAP];
+pub(crate) fn vk_value_storage() -> ValueStorage { [dashmap::VCell::empty(), dashmap::VCell::empty(), dashmap::VCell::empty(), dashmap::VCell::empty()] }
+pub(crate) fn vk_use_value_storage(s: &Store<u64, u64>, p: &mut ValueStorage) { s.store.vk_use_value_storage(p as *mut _); }
 pub(crate) fn vk_len(s: &Store<u64, u64>) -> usize { s.store.vk_len() }
 pub(crate) fn vk_lookups(s: &Store<u64, u64>) -> u32 { s.store.vk_lookups() }
 pub(crate) fn vk_locked(s: &Store<u64, u64>) -> bool { s.store.vk_locked() }
